@@ -55,7 +55,9 @@ def k_parsers(p0: int, v0: str, p1: int, v1: str, p2: int, v2: str) -> str:
     from trashcli.parse_trashinfo.parse_original_location import parse_original_location
     from trashcli.parse_trashinfo.parse_deletion_date import parse_deletion_date
     from trashcli.parse_trashinfo.maybe_parse_deletion_date import maybe_parse_deletion_date, unknown_date
-    lines = [PREFIX[p0] + v0, PREFIX[p1] + v1, PREFIX[p2] + v2]
+    # (CrossHair 0.0.110 mis-evaluates concatenation with a concrete empty string: avoid it)
+    pf = [PREFIX[rt.sel(p0, 9)], PREFIX[rt.sel(p1, 9)], PREFIX[rt.sel(p2, 9)]]
+    lines = [v if p == '' else p + v for p, v in zip(pf, (v0, v1, v2))]
     content = lines[0] + '\n' + lines[1] + '\n' + lines[2] + '\n'
     s_unq, s_unq2, s_dt = pp.unquote, pt.unquote, pt.datetime
     pp.unquote = _rec_unquote
